@@ -190,6 +190,111 @@ func runC07(c *Ctx) {
 		}
 	}
 
+	// ------------------------------------------------------------ P8
+	c.Rule("C07.P8", "CONFINED", "the end-of-block code works on validator records it reads from the state where it uses them: no struct type of package staking has a field that holds validator records (*state.Validator, slices or maps of them, *state.Validators) — a record kept across a replacement (a slash, a settlement) is a superseded pre-image, and writing a copy of it back undoes the replacement while the tokens it moved stay moved")
+	c.Min(5)
+	{
+		valT := w.Named("core/state", "Validator")
+		valsT := w.Named("core/state", "Validators")
+		var holds func(t types.Type, depth int) bool
+		holds = func(t types.Type, depth int) bool {
+			if depth > 4 {
+				return false
+			}
+			switch x := t.(type) {
+			case *types.Named:
+				if types.Identical(x, valT) || types.Identical(x, valsT) {
+					return true
+				}
+				return false
+			case *types.Pointer:
+				return holds(x.Elem(), depth+1)
+			case *types.Slice:
+				return holds(x.Elem(), depth+1)
+			case *types.Array:
+				return holds(x.Elem(), depth+1)
+			case *types.Map:
+				return holds(x.Elem(), depth+1) || holds(x.Key(), depth+1)
+			}
+			return false
+		}
+		sc := w.Pkg("staking").Types.Scope()
+		n := 0
+		for _, name := range sc.Names() {
+			tn, ok := sc.Lookup(name).(*types.TypeName)
+			if !ok {
+				continue
+			}
+			st, ok := tn.Type().Underlying().(*types.Struct)
+			if !ok {
+				continue
+			}
+			n++
+			c.sites++
+			bad := ""
+			for i := 0; i < st.NumFields(); i++ {
+				if holds(st.Field(i).Type(), 0) {
+					bad = st.Field(i).Name()
+				}
+			}
+			c.Check("staking."+name+"#holds-no-validator-records", tn.Pos(), bad == "", ifelse(bad == "", "no field holds validator records", "field "+name+"."+bad+" keeps validator records beyond the statement that read them: after a slash or a settlement replaced a record, the kept one is superseded; the next update copies it and writes it back, the validator keeps the stake the penalty took (or loses what was booked) while the tokens stay where they were moved — supply changes"))
+		}
+		if n < 5 {
+			c.Undecided("staking#struct-types", 0, fmt.Sprintf("only %d struct types found in package staking", n))
+		}
+	}
+
+	// ------------------------------------------------------------ P9
+	c.Rule("C07.P9", "ORDER", "in settleValidatorRewards the residue is carried over into the new record (RewardsDistributable.Set(record.residue)) only after everything that pays it out or zeroes it: no payment of record.residue and no in-place change of it can follow the carry-over")
+	c.Min(1)
+	{
+		sv := w.Fn("staking", "", "settleValidatorRewards")
+		c.sawFunc(fname(sv))
+		isResidue := func(v ssa.Value) bool {
+			f, _ := loadedField(stripConv(v))
+			return f != nil && f.Name() == "residue"
+		}
+		var carry []ssa.CallInstruction
+		var later []ssa.CallInstruction
+		for _, ci := range callInstrs(sv) {
+			o := calleeObj(ci)
+			if o == nil {
+				continue
+			}
+			if recvName(o) == "Int" && o.Name() == "Set" && len(callArgs(ci)) == 1 && isResidue(callArgs(ci)[0]) {
+				if f, _ := loadedField(stripConv(callRecv(ci))); f != nil && f.Name() == "RewardsDistributable" {
+					carry = append(carry, ci)
+				}
+			}
+			if recvName(o) == "Int" && isResidue(callRecv(ci)) {
+				switch o.Name() {
+				case "SetUint64", "SetInt64", "Set", "Sub", "Add":
+					later = append(later, ci)
+				}
+			}
+			if o.Name() == "AddBalance" {
+				for _, a := range callArgs(ci) {
+					if isResidue(a) {
+						later = append(later, ci)
+					}
+				}
+			}
+		}
+		c.sites += len(carry)
+		if len(carry) == 0 {
+			c.Undecided(fname(sv)+"#residue-carried-over-last", sv.Pos(), "the carry-over of the residue was not found")
+		}
+		for _, cr := range carry {
+			bad := ""
+			for _, l := range later {
+				if reachesWithoutRedefinition(cr, l, nil) {
+					bad = w.Pos(l.Pos())
+				}
+			}
+			c.Check(fname(sv)+"#residue-carried-over-last", cr.Pos(), bad == "", ifelse(bad == "", "nothing pays or changes the residue after it was copied into the new record", "the residue is copied into the new record and paid out / zeroed afterwards (at "+bad+"): it is both paid and kept as distributable, and paid again at every later period end"))
+		}
+	}
+
 	// ------------------------------------------------------------ P2
 	c.Rule("C07.P2", "EXIT+EXHAUSTIVE", "teDeposit and teDelegationAdd (whose submission handlers debited the sender) on every return either applied the credit (UpdateValidator / UpdateDelegation) or refunded the transaction value to the sender, or run under a pre-V5 protocol version (historic behaviour); the submission and take-effect registries register the same actions")
 	c.Min(3)
